@@ -7,7 +7,10 @@ RULE = ("(A) MC_Core(stream + mutator families): 0<=pos<=len after every step, r
         "advance by it, peeks and failing reads leave pos, documented pos movements of every mutator, new streams at 0 - for "
         "every content up to L bits, every pos, every call. (B) Gen_Core(stream): every setpos/bytepos/bytealign/read/peek/"
         "readlist/readto/find/rfind from every (content, pos); mutator families replayed on BitStream from every position. "
-        "(C) random sequences of 4-12 stream operations and mutations. token reads (read/peek of one token, readlist/peeklist of random token lists incl. exp-Golomb and length-less tokens) from random positions are included.")
+        "(A2)+(B2) Ref.tla: the machine of three live objects (BitStream, BitArray, Bits) explored as a state graph - "
+        "0<=pos<=len and fixed classes in every reachable state, the immutable object constant, at most the target changes "
+        "per step - and behaviours printed by tlc -simulate (8 calls each over mutators, stream calls, cross-object operands "
+        "and lsb0 toggles) replayed on the real classes. (C) random sequences of 4-12 stream operations and mutations. token reads (read/peek of one token, readlist/peeklist of random token lists incl. exp-Golomb and length-less tokens) from random positions are included.")
 
 
 def run(chk):
@@ -19,6 +22,7 @@ def run(chk):
         mut = [('grow', 3, 2, 3), ('del', 3, 2, 3), ('setitem', 3, 2, 3), ('setslice', 2, 2, 2), ('replace', 2, 2, 2),
                ('range', 2, 2, 2), ('set', 2, 2, 2), ('bitwise', 3, 2, 3)]
     common.run_families(chk, mut, ['BitStream'], all_pos=True)
+    common.run_ref_machine(chk, mc=True, procs=16 if thorough else 8, num=60 if thorough else 5, thorough=thorough)
     chk.exhaustive = True
     common.run_random(chk, drivers.c06_program, 8000 if thorough else 1500, 6, huge=0.01 if thorough else 0.0)
     from harness import fmtprogs
